@@ -1,6 +1,6 @@
 (* C07, second part: frame properties of check, the existence query, add with verification. *)
 From Coq Require Import NArith List Bool Lia.
-From DvcData Require Import Base.Val Gen.Check Model.Integrity Proofs.IntegrityProofs.
+From DvcData Require Import Base.Val Gen.Check Model.StateDbBase Model.Integrity Proofs.IntegrityProofs.
 Import ListNotations.
 Open Scope N_scope.
 
